@@ -130,12 +130,12 @@ class Check:
         self.pending = idx.get("pending", [])
         self.obligations = len(theorems) + len(self.pending)
         t = time.time()
-        targets = ["ForsysModel.Model"] + ([module] if module else [])
+        targets = ["ForsysModel.Model", "ForsysModel.Driver"] + ([module] if module else [])
         rc, out = lake(["build"] + targets)
         self.stages["build_s"] = round(time.time() - t, 2)
         if rc != 0:
             # is it only the property's proof module, or the model everything needs?
-            rc2, out2 = lake(["build", "ForsysModel.Model"])
+            rc2, out2 = lake(["build", "ForsysModel.Model", "ForsysModel.Driver"])
             if rc2 != 0:
                 raise Infra("Lean model does not build:\n" + out2[-3000:])
             self.proof_problems.append({"what": "build", "module": module, "log": out[-3000:]})
